@@ -29,6 +29,8 @@ pub enum Kind {
     SliderLen(u16),
     /// spinner of the given length in ms
     Spinner(u32),
+    /// a spinner whose end time lies the given number of ms *before* its start (files carry any end time)
+    SpinnerBack(u16),
     /// hold note (type 128) of the given length in ms
     Hold(u32),
 }
@@ -209,6 +211,7 @@ impl MapSpec {
                 Kind::SliderPerfect => slider_end(1.0, 100.0),
                 Kind::SliderLen(px) => slider_end(1.0, f64::from(px)),
                 Kind::Spinner(len) | Kind::Hold(len) => t + i64::from(len),
+                Kind::SpinnerBack(_) => t,
             };
             match o.pos {
                 PosK::Same => {}
@@ -277,6 +280,9 @@ impl MapSpec {
                 }
                 Kind::Spinner(len) => {
                     let _ = writeln!(s, "256,192,{ts},12,{hs},{}", t + i64::from(len));
+                }
+                Kind::SpinnerBack(len) => {
+                    let _ = writeln!(s, "256,192,{ts},12,{hs},{}", t - i64::from(len));
                 }
                 Kind::Hold(len) => {
                     let _ = writeln!(s, "{xs},{ys},{ts},128,{hs},{}:0:0:0:0:", t + i64::from(len));
